@@ -163,6 +163,9 @@ pub struct GenCfg {
     /// ORDER BY inside a derived table (no LIMIT): the plan keeps the sort, operators above may
     /// rely on it (sort aggregation, merge join)
     pub derived_order: bool,
+    /// ORDER BY above a GROUP BY on the sort column of an ordered derived table (open finding
+    /// F-C05-order-dropped-over-hashagg-large-cost)
+    pub order_over_derived_sortagg: bool,
     /// keys declared by the table constraint `primary key(a[, b])`
     pub table_level_pk: bool,
     /// deliberately ill-formed: a column outside any aggregate that is not a GROUP BY key. The
@@ -218,6 +221,7 @@ impl GenCfg {
             correlated_not_in: true,
             order_non_selected: true,
             derived_order: true,
+            order_over_derived_sortagg: true,
             table_level_pk: true,
             ungrouped_items: false,
             max_depth: 3,
@@ -1222,6 +1226,7 @@ impl<'a, 'b> Gen<'a, 'b> {
         // SELECT / GROUP BY
         let mode = if self.cfg.aggregates { self.t.weighted(&[6, 3, 3]) } else { 0 };
         let mut select: Vec<(E, Ty)> = vec![];
+        let mut grouped_on_derived_order = false;
         let mut group_by = vec![];
         let mut having = None;
         let mut distinct = false;
@@ -1282,6 +1287,7 @@ impl<'a, 'b> Gen<'a, 'b> {
                     let (e, ty) = ordered[self.t.pick(ordered.len())].clone();
                     group_by.push(e.clone());
                     select.push((e, ty));
+                    grouped_on_derived_order = true;
                 }
                 let nk = self.t.range(if group_by.is_empty() { 1 } else { 0 }, 2);
                 for _ in 0..nk {
@@ -1359,8 +1365,12 @@ impl<'a, 'b> Gen<'a, 'b> {
         let mut order_extra: Vec<(E, Ty, bool)> = vec![];
         let mut limit = None;
         let mut offset = None;
-        if self.cfg.order_limit && (self.cfg.distinct_complex || !distinct) {
-            if self.t.chance(2, 5) {
+        // (an aggregating block over a derived table that itself has aggregate outputs, sorted and
+        // limited: projection pushdown drops aggregates the top-n needs — one more trigger of the
+        // open column-not-found family, avoided like the others while `derived_expr_items` is off)
+        let agg_over_derived_agg = mode != 0 && from.iter().any(|f| matches!(&f.source, Source::Derived(q) if q.select.iter().any(|(e, _)| matches!(e, E::Agg(..)))));
+        if self.cfg.order_limit && (self.cfg.distinct_complex || !distinct) && (self.cfg.derived_expr_items || !agg_over_derived_agg) {
+            if self.t.chance(2, 5) && (self.cfg.order_over_derived_sortagg || !grouped_on_derived_order) {
                 let nk = self.t.range(1, select.len().min(2));
                 for _ in 0..nk {
                     let i = self.t.pick(select.len());
